@@ -113,6 +113,13 @@ def ghostCollisions (s : State) (np : Int × Int) : List CR → List CR → List
   | p :: ps, o :: os, q :: qs, e :: es => ghostCollision s np p o q e :: ghostCollisions s np ps os qs es
   | _, _, _, _ => []
 
+/-- the rule behind `done` of `check_ghost_collisions`: the ghost's new cell is the player's new cell, or the ghost's new cell
+is the player's old cell, or the ghost's old cell is the player's new cell (ghost cells are (column, row), player cells (row, column)) -/
+def touches (s : State) (np : Int × Int) (path old : CR) : Prop :=
+  (path.2 = np.1 ∧ path.1 = np.2) ∨ (path.2 = s.player.1 ∧ path.1 = s.player.2) ∨ (old.2 = np.1 ∧ old.1 = np.2)
+instance (s : State) (np : Int × Int) (path old : CR) : Decidable (touches s np path old) := by unfold touches; infer_instance
+
+
 def crOfPlayer (p : Int × Int) : CR := (p.2, p.1)
 
 /-- rows equal to the player's cell are zeroed (`locations * mask`) -/
